@@ -3,8 +3,11 @@ package netsim
 import (
 	"crypto/ecdsa"
 	"fmt"
+	"io"
 	"sort"
 	"time"
+
+	"github.com/gogo/protobuf/proto"
 
 	"pgregory.net/rapid"
 
@@ -49,8 +52,50 @@ type Sim struct {
 	AllowInvalidProposals bool
 	SigHook               func(node int, s SigRec) // called at every signing request of a correct node
 
+	// DeliverHook / OwnHook are called before a peer message / a node's own message is handed to the node.
+	DeliverHook func(to, from int, msg consensus.Message)
+	OwnHook     func(node int, msg consensus.Message)
+
+	ownProp  map[int]*types.Proposal // last own proposal per node (to assemble honest candidates from own parts)
+	ownParts map[int]*types.PartSet
 	lastLock map[int]string
 	maxRound uint32
+}
+
+// onOwn sees every message a correct node emits to itself (proposal, parts, votes) before it is processed. Honest
+// proposals are registered as candidates here, from the proposer's own part messages: inside one call the proposer can
+// complete its block, prevote it, see a polka for another block and drop it again, so its round state is not a
+// reliable place to learn about it afterwards.
+func (s *Sim) onOwn(node int, msg consensus.Message) {
+	switch x := msg.(type) {
+	case *consensus.ProposalMessage:
+		if s.ownProp == nil {
+			s.ownProp, s.ownParts = map[int]*types.Proposal{}, map[int]*types.PartSet{}
+		}
+		s.ownProp[node] = x.Proposal
+		s.ownParts[node] = types.NewPartSetFromHeader(x.Proposal.POLBlockID.PartsHeader)
+	case *consensus.BlockPartMessage:
+		if ps := s.ownParts[node]; ps != nil && x.Part != nil {
+			ps.AddPart(x.Part)
+			if ps.IsComplete() {
+				id := s.ownProp[node].POLBlockID
+				if s.byID[ExactKey(id)] == nil {
+					if bz, err := io.ReadAll(ps.GetReader()); err == nil {
+						pbb := new(kproto.Block)
+						if proto.Unmarshal(bz, pbb) == nil {
+							if blk, err := types.BlockFromProto(pbb, trie.NewStackTrie(nil)); err == nil {
+								s.addCand(&Cand{Height: x.Height, Block: blk, Parts: ps, ID: id, Valid: true, Desc: fmt.Sprintf("honest(n%d)", node)})
+							}
+						}
+					}
+				}
+				s.ownParts[node] = nil
+			}
+		}
+	}
+	if s.OwnHook != nil {
+		s.OwnHook(node, msg)
+	}
 }
 
 // ExactKey identifies a block id including the part-set total.
@@ -99,6 +144,13 @@ func NewSimWith(powers []int64, byz []int, opts func(i int) NodeOpts, gopts Gene
 			return nil, err
 		}
 		s.Net.Nodes[i] = nd
+	}
+	s.Net.After = s.RegisterFromNodes
+	s.Net.OnOwn = s.onOwn
+	s.Net.OnDeliver = func(to, from int, msg consensus.Message) {
+		if s.DeliverHook != nil {
+			s.DeliverHook(to, from, msg)
+		}
 	}
 	return s, nil
 }
@@ -320,6 +372,8 @@ func (s *Sim) Step(t *rapid.T) {
 	_ = weights
 	act := rapid.IntRange(0, 25).Draw(t, "act")
 	switch {
+	case act >= 23 && s.byzHasTwoThirds(): // single-victim profile: scripted lock / round change / (un)lock sequence
+		s.LockDance(t, up)
 	case act >= 20: // scripted round with drawn visibility sets (makes lock / split states frequent)
 		s.RoundMacro(t, up)
 	case act <= 2: // partial gossip j -> i
@@ -760,4 +814,174 @@ func drawBiased(t *rapid.T, from []int, label string, pAll, pOne int) []int {
 		}
 	}
 	return out
+}
+
+func (s *Sim) byzHasTwoThirds() bool {
+	var b, tot int64
+	for i, p := range s.Powers {
+		tot += p
+		for _, x := range s.Byz {
+			if x == i {
+				b += p
+			}
+		}
+	}
+	return b*3 >= tot*2
+}
+
+// allByzVote makes every Byzantine validator cast the same vote to node i.
+func (s *Sim) allByzVote(i int, typ kproto.SignedMsgType, round uint32, id types.BlockID) {
+	nd := s.Nodes[i]
+	h := nd.CS.Height
+	for _, b := range s.Byz {
+		if nd.CS.Height != h {
+			return
+		}
+		if v := s.SignVote(b, nd, typ, h, round, id); v != nil {
+			s.send(i, b, &consensus.VoteMessage{Vote: v})
+			s.DrainOwn(i)
+		}
+	}
+}
+
+// LockDance (only when the puppets hold >= 2/3): get the victim to hold a block, show it a polka so that it locks and
+// precommits, move it to the next round with nil precommits, then optionally show it a newer polka for another value
+// (unlock) and move on again. Every sub-step is conditional on the victim's actual state.
+func (s *Sim) LockDance(t *rapid.T, up []int) {
+	i := rapid.SampledFrom(up).Draw(t, "ldv")
+	nd := s.Nodes[i]
+	cs := nd.CS
+	s.tracef("lockdance n%d begin at %d/%d/%v", i, cs.Height, cs.Round, cs.Step)
+	s.fireIfStep([]int{i}, "RoundStepNewHeight", "RoundStepNewRound")
+	h := cs.Height
+	// 1. a complete valid proposal for the current round
+	if cs.ProposalBlock == nil {
+		prop := cs.Validators.GetProposer()
+		if b := s.genesisIndexOf(prop.Address); b >= 0 && b != i {
+			c := s.MakeCand(i, rapid.IntRange(0, len(s.Keys)-1).Draw(t, "ldp"), rapid.IntRange(0, 1).Draw(t, "lddrop"), "")
+			if c != nil {
+				s.tracef(" proposal %s", c.Name)
+				p := s.SignProposal(b, h, cs.Round, 0, c.ID)
+				s.send(i, b, &consensus.ProposalMessage{Proposal: p})
+				for k := 0; k < int(c.Parts.Total()); k++ {
+					s.send(i, b, &consensus.BlockPartMessage{Height: h, Round: cs.Round, Part: c.Parts.GetPart(k)})
+				}
+				s.DrainOwn(i)
+			}
+		}
+	}
+	if cs.Height != h || cs.ProposalBlock == nil || cs.ProposalBlockParts == nil || !cs.ProposalBlockParts.IsComplete() {
+		s.tracef("lockdance: no block held")
+		return
+	}
+	X := types.BlockID{Hash: cs.ProposalBlock.Hash(), PartsHeader: cs.ProposalBlockParts.Header()}
+	r := cs.Round
+	// 2. polka for X -> victim locks and precommits X
+	s.tracef(" polka for held block at round %d", r)
+	s.allByzVote(i, kproto.PrevoteType, r, X)
+	s.fireIfStep([]int{i}, "RoundStepPropose", "RoundStepPrevoteWait")
+	if cs.Height != h {
+		return
+	}
+	// 3. nil precommits -> next round
+	s.tracef(" nil precommits at round %d", r)
+	s.allByzVote(i, kproto.PrecommitType, r, types.BlockID{})
+	s.fireIfStep([]int{i}, "RoundStepPrecommitWait")
+	if cs.Height != h {
+		return
+	}
+	// 4. in the new round: optionally a polka for another value
+	switch rapid.IntRange(0, 4).Draw(t, "ldnext") {
+	case 0: // nothing: the victim should prevote its locked block when it gets to prevote
+		s.fireIfStep([]int{i}, "RoundStepPropose")
+	case 4: // a STALE polka (round <= the lock round) for another value must not unlock; then offer another block
+		if cs.LockedBlock == nil || cs.LockedRound < 2 {
+			s.fireIfStep([]int{i}, "RoundStepPropose")
+			break
+		}
+		old := uint32(rapid.IntRange(1, int(cs.LockedRound)-1).Draw(t, "ldold"))
+		var Y *Cand
+		for _, c := range s.Cands[h] {
+			if c.Valid && ExactKey(c.ID) != ExactKey(X) {
+				Y = c
+			}
+		}
+		if Y == nil {
+			Y = s.MakeCand(i, rapid.IntRange(0, len(s.Keys)-1).Draw(t, "ldy"), 0, "")
+		}
+		if Y == nil || ExactKey(Y.ID) == ExactKey(X) {
+			break
+		}
+		stale := Y.ID
+		if rapid.Bool().Draw(t, "ldstalenil") {
+			stale = types.BlockID{}
+		}
+		s.tracef(" stale polka at round %d (locked at %d), then proposal %s", old, cs.LockedRound, Y.Name)
+		s.allByzVote(i, kproto.PrevoteType, old, stale)
+		prop := cs.Validators.GetProposer()
+		if b := s.genesisIndexOf(prop.Address); b >= 0 && b != i && cs.Height == h {
+			p := s.SignProposal(b, h, cs.Round, 0, Y.ID)
+			s.send(i, b, &consensus.ProposalMessage{Proposal: p})
+			for k := 0; k < int(Y.Parts.Total()); k++ {
+				s.send(i, b, &consensus.BlockPartMessage{Height: h, Round: cs.Round, Part: Y.Parts.GetPart(k)})
+			}
+			s.DrainOwn(i)
+		}
+		s.fireIfStep([]int{i}, "RoundStepPropose")
+		s.Stat["stale-polka"]++
+	case 1: // polka for nil in the new round -> unlock
+		s.tracef(" nil polka at round %d", cs.Round)
+		s.fireIfStep([]int{i}, "RoundStepPropose")
+		s.allByzVote(i, kproto.PrevoteType, cs.Round, types.BlockID{})
+		s.fireIfStep([]int{i}, "RoundStepPrevoteWait")
+		s.allByzVote(i, kproto.PrecommitType, cs.Round, types.BlockID{})
+		s.fireIfStep([]int{i}, "RoundStepPrecommitWait")
+	default: // polka for another block Y in the new round (victim may or may not hold Y)
+		var Y *Cand
+		for _, c := range s.Cands[h] {
+			if c.Valid && ExactKey(c.ID) != ExactKey(X) {
+				Y = c
+			}
+		}
+		if Y == nil {
+			Y = s.MakeCand(i, rapid.IntRange(0, len(s.Keys)-1).Draw(t, "ldy"), 0, "")
+		}
+		if Y == nil || ExactKey(Y.ID) == ExactKey(X) {
+			return
+		}
+		s.tracef(" polka for %s at round %d", Y.Name, cs.Round)
+		give := rapid.Bool().Draw(t, "ldgive")
+		prop := cs.Validators.GetProposer()
+		if b := s.genesisIndexOf(prop.Address); give && b >= 0 && b != i {
+			p := s.SignProposal(b, h, cs.Round, 0, Y.ID)
+			s.send(i, b, &consensus.ProposalMessage{Proposal: p})
+			for k := 0; k < int(Y.Parts.Total()); k++ {
+				s.send(i, b, &consensus.BlockPartMessage{Height: h, Round: cs.Round, Part: Y.Parts.GetPart(k)})
+			}
+			s.DrainOwn(i)
+		}
+		s.fireIfStep([]int{i}, "RoundStepPropose")
+		s.allByzVote(i, kproto.PrevoteType, cs.Round, Y.ID)
+		s.fireIfStep([]int{i}, "RoundStepPrevoteWait")
+		if cs.Height != h {
+			return
+		}
+		s.allByzVote(i, kproto.PrecommitType, cs.Round, types.BlockID{})
+		s.fireIfStep([]int{i}, "RoundStepPrecommitWait")
+		// and one more round so that the victim gets to prevote again
+		if cs.Height == h && rapid.Bool().Draw(t, "ldmore") {
+			prop := cs.Validators.GetProposer()
+			if b := s.genesisIndexOf(prop.Address); b >= 0 && b != i {
+				p := s.SignProposal(b, h, cs.Round, 0, Y.ID)
+				s.send(i, b, &consensus.ProposalMessage{Proposal: p})
+				for k := 0; k < int(Y.Parts.Total()); k++ {
+					s.send(i, b, &consensus.BlockPartMessage{Height: h, Round: cs.Round, Part: Y.Parts.GetPart(k)})
+				}
+				s.DrainOwn(i)
+			}
+			s.fireIfStep([]int{i}, "RoundStepPropose")
+		}
+	}
+	s.Stat["lock-dance"]++
+	s.tracef("lockdance end at %d/%d/%v", cs.Height, cs.Round, cs.Step)
 }
